@@ -7,6 +7,22 @@
 //@include storage_types.rs
 //@include std_shims.rs
 
+impl<T> BTreeSet<T> {
+    pub uninterp spec fn view(&self) -> Set<T>;
+    #[verifier::external_body]
+    pub fn contains(&self, x: &T) -> (r: bool) ensures r == self@.contains(*x) { unimplemented!() }
+}
+impl PartialEq for PublicKey { fn eq(&self, other: &Self) -> (r: bool) { pk_eq(self, other) } }
+#[verifier::external_body]
+fn pk_eq(a: &PublicKey, b: &PublicKey) -> (r: bool) ensures r == (*a == *b) { unimplemented!() }
+impl vstd::std_specs::cmp::PartialEqSpecImpl for PublicKey {
+    open spec fn obeys_eq_spec() -> bool { true }
+    open spec fn eq_spec(&self, other: &Self) -> bool { *self == *other }
+}
+impl PublicKey {
+    #[verifier::external_body]
+    pub fn to_hex(&self) -> String { unimplemented!() }
+}
 impl Clone for GroupId {
     #[verifier::external_body]
     fn clone(&self) -> (r: Self) ensures r == *self { unimplemented!() }
@@ -218,8 +234,22 @@ pub trait MdkStorageProvider {
 pub struct MlsGroup { _p: u8 }
 #[verifier::external_body]
 pub struct StagedCommit { _p: u8 }
+#[derive(Clone, Copy)]
+pub struct LeafNodeIndex { pub idx: u32 }
+impl PartialEq for LeafNodeIndex { fn eq(&self, other: &Self) -> (r: bool) { self.idx == other.idx } }
+impl vstd::std_specs::cmp::PartialEqSpecImpl for LeafNodeIndex {
+    open spec fn obeys_eq_spec() -> bool { true }
+    open spec fn eq_spec(&self, other: &Self) -> bool { self.idx == other.idx }
+}
 #[verifier::external_body]
-pub struct Sender { _p: u8 }
+pub struct ExternalSenderIndex { _p: u8 }
+// openmls::prelude::Sender (variants as in openmls 0.8.1)
+pub enum Sender {
+    Member(LeafNodeIndex),
+    External(ExternalSenderIndex),
+    NewMemberProposal,
+    NewMemberCommit,
+}
 #[verifier::external_body]
 pub struct OpenMlsGroupId { _p: u8 }
 pub struct GroupEpoch { pub e: u64 }
@@ -270,6 +300,97 @@ impl MlsGroup {
     { unimplemented!() }
 }
 
+// ---- members and credentials (assumed OpenMLS API)
+#[verifier::external_body]
+pub struct Credential { _p: u8 }
+impl Clone for Credential { #[verifier::external_body] fn clone(&self) -> (r: Self) ensures r == *self { unimplemented!() } }
+pub struct Member { pub index: LeafNodeIndex, pub credential: Credential }
+#[verifier::external_body]
+pub struct BasicCredential { _p: u8 }
+pub uninterp spec fn cred_is_basic(c: Credential) -> bool;
+pub uninterp spec fn cred_identity(c: Credential) -> Seq<u8>;
+impl BasicCredential {
+    pub uninterp spec fn id(&self) -> Seq<u8>;
+    #[verifier::external_body]
+    pub fn identity(&self) -> (r: &[u8]) ensures r@ == self.id() { unimplemented!() }
+}
+impl TryFrom<Credential> for BasicCredential {
+    type Error = BasicCredentialError;
+    #[verifier::external_body]
+    fn try_from(c: Credential) -> (r: Result<BasicCredential, BasicCredentialError>)
+        ensures (r is Ok) == cred_is_basic(c), r is Ok ==> r->Ok_0.id() == cred_identity(c)
+    { unimplemented!() }
+}
+pub uninterp spec fn mls_member_exists(v: MlsView, i: LeafNodeIndex) -> bool;
+pub uninterp spec fn mls_member_credential(v: MlsView, i: LeafNodeIndex) -> Credential;
+impl MlsGroup {
+    #[verifier::external_body]
+    pub fn member_at(&self, i: LeafNodeIndex) -> (r: Option<Member>)
+        ensures (r is Some) == mls_member_exists(self.view(), i),
+                r is Some ==> r->Some_0.credential == mls_member_credential(self.view(), i) && r->Some_0.index == i
+    { unimplemented!() }
+}
+// nostr::PublicKey::from_slice: x-only key validity is a fact about secp256k1 (uninterpreted)
+pub uninterp spec fn pk_bytes_valid(b: Seq<u8>) -> bool;
+pub uninterp spec fn pk_from_bytes(b: Seq<u8>) -> PublicKey;
+#[verifier::external_body]
+pub struct KeyError { _p: u8 }
+impl PublicKey {
+    #[verifier::external_body]
+    pub fn from_slice(b: &[u8]) -> (r: Result<PublicKey, KeyError>)
+        ensures (r is Ok) == (b@.len() == 32 && pk_bytes_valid(b@)), r is Ok ==> r->Ok_0 == pk_from_bytes(b@)
+    { unimplemented!() }
+}
+// identity bound to a leaf: None if there is no such member or its credential is not a 32-byte basic credential
+pub open spec fn member_identity(v: MlsView, i: LeafNodeIndex) -> Option<PublicKey> {
+    if mls_member_exists(v, i) && cred_is_basic(mls_member_credential(v, i)) && cred_identity(mls_member_credential(v, i)).len() == 32 && pk_bytes_valid(cred_identity(mls_member_credential(v, i)))
+    { Some(pk_from_bytes(cred_identity(mls_member_credential(v, i)))) } else { None }
+}
+
+// ---- proposals inside a staged commit (assumed OpenMLS API; iterators modelled as slices)
+impl Clone for LeafNode { #[verifier::external_body] fn clone(&self) -> (r: Self) ensures r == *self { unimplemented!() } }
+pub uninterp spec fn leaf_credential(l: LeafNode) -> Credential;
+impl LeafNode {
+    #[verifier::external_body]
+    pub fn credential(&self) -> (r: &Credential) ensures *r == leaf_credential(*self) { unimplemented!() }
+}
+pub open spec fn leaf_identity(l: LeafNode) -> Option<PublicKey> {
+    if cred_is_basic(leaf_credential(l)) && cred_identity(leaf_credential(l)).len() == 32 && pk_bytes_valid(cred_identity(leaf_credential(l)))
+    { Some(pk_from_bytes(cred_identity(leaf_credential(l)))) } else { None }
+}
+pub struct UpdateProposal { pub leaf: LeafNode }
+impl UpdateProposal { pub fn leaf_node(&self) -> (r: &LeafNode) ensures *r == self.leaf { &self.leaf } }
+impl Clone for UpdateProposal { #[verifier::external_body] fn clone(&self) -> (r: Self) ensures r == *self { unimplemented!() } }
+#[verifier::external_body] pub struct AddProposal { _p: u8 }
+#[verifier::external_body] pub struct RemoveProposal { _p: u8 }
+#[verifier::external_body] pub struct OtherProposal { _p: u8 }
+// openmls::prelude::Proposal (the variants the extracted bodies name; the rest folded into Other*)
+pub enum Proposal {
+    Add(Box<AddProposal>),
+    Update(Box<UpdateProposal>),
+    Remove(Box<RemoveProposal>),
+    PreSharedKey(Box<OtherProposal>),
+    ReInit(Box<OtherProposal>),
+    ExternalInit(Box<OtherProposal>),
+    GroupContextExtensions(Box<OtherProposal>),
+    SelfRemove,
+    Custom(Box<OtherProposal>),
+}
+pub struct QueuedUpdateProposal { pub up: UpdateProposal, pub snd: Sender }
+impl QueuedUpdateProposal {
+    pub fn update_proposal(&self) -> (r: &UpdateProposal) ensures *r == self.up { &self.up }
+    pub fn sender(&self) -> (r: &Sender) ensures *r == self.snd { &self.snd }
+}
+impl StagedCommit {
+    pub uninterp spec fn ups(&self) -> Seq<QueuedUpdateProposal>;
+    pub uninterp spec fn path_leaf(&self) -> Option<LeafNode>;
+    // real: an iterator over the queued Update proposals
+    #[verifier::external_body]
+    pub fn update_proposals(&self) -> (r: &Vec<QueuedUpdateProposal>) ensures r@ == self.ups() { unimplemented!() }
+    #[verifier::external_body]
+    pub fn update_path_leaf_node(&self) -> (r: Option<&LeafNode>) ensures (r is Some) == (self.path_leaf() is Some), r is Some ==> *r->Some_0 == self.path_leaf()->Some_0 { unimplemented!() }
+}
+
 pub struct MdkProvider<Storage: MdkStorageProvider> {
     pub crypto: RustCrypto,
     pub storage: Storage,
@@ -300,6 +421,36 @@ pub mod error {
 //@end
 }
 pub use error::Error;
+impl From<BasicCredentialError> for Error {
+    #[verifier::external_body]
+    fn from(e: BasicCredentialError) -> (r: Error) ensures r == Error::BasicCredential(e) { unimplemented!() }
+}
+impl vstd::std_specs::convert::FromSpecImpl<BasicCredentialError> for Error {
+    open spec fn obeys_from_spec() -> bool { true }
+    open spec fn from_spec(e: BasicCredentialError) -> Error { Error::BasicCredential(e) }
+}
+
+// ---- crate::extension (the decoded group-data extension; struct copied from the repository)
+pub mod extension {
+    use super::*;
+//@extract id=ty.NostrGroupDataExtension file=crates/mdk-core/src/extension/types.rs item="struct NostrGroupDataExtension"
+//@end
+    impl NostrGroupDataExtension {
+        // assumed: from_group decodes the extension carried by the MLS group context (the decoder
+        // itself is verified in unit ext_codec)
+        #[verifier::external_body]
+        pub fn from_group(group: &MlsGroup) -> (r: Result<NostrGroupDataExtension, Error>)
+            ensures (r is Ok) == ext_valid(group.view().ext),
+                    r is Ok ==> ext_fields(r->Ok_0, group.view().ext)
+        { unimplemented!() }
+    }
+    pub open spec fn ext_fields(x: NostrGroupDataExtension, e: ExtData) -> bool {
+        x.name == ext_name(e) && x.description == ext_description(e) && x.admins == ext_admins(e) && x.relays == ext_relays(e)
+        && x.image_hash == ext_image_hash(e) && x.image_key == ext_image_key(e) && x.image_nonce == ext_image_nonce(e)
+        && x.nostr_group_id == ext_nostr_group_id(e)
+    }
+}
+pub use extension::NostrGroupDataExtension;
 
 pub struct MdkConfig {
     pub max_event_age_secs: u64,
@@ -360,3 +511,21 @@ pub uninterp spec fn better_candidate(w: World, g: GroupId, epoch: u64, ts: u64,
 impl<Storage: MdkStorageProvider> MDK<Storage> {
     pub fn storage(&self) -> (r: &Storage) ensures r == &self.provider.storage { &self.provider.storage }
 }
+
+// ---- path aliases so that fully qualified paths in the extracted text resolve to the shims
+pub mod nostr {
+    pub use super::{Timestamp, EventId, PublicKey, Kind, Tags, UnsignedEvent, RelayUrl, Event};
+}
+pub mod openmls {
+    pub mod prelude { pub use super::super::{LeafNodeIndex, Sender, MlsGroup, StagedCommit, BasicCredential, Credential, Member, Proposal}; }
+    pub mod credentials { pub use super::super::{BasicCredential, Credential}; }
+    pub mod group { pub use super::super::{MlsGroup, StagedCommit}; }
+}
+
+// Display for shim types that the extracted bodies pass to format! (never inspected; no precondition)
+impl core::fmt::Display for KeyError { #[verifier::external_body] fn fmt(&self, _f: &mut core::fmt::Formatter<'_>) -> core::fmt::Result { unimplemented!() } }
+impl vstd::std_specs::fmt::DisplaySpecImpl for KeyError { open spec fn fmt_req(&self, f: &core::fmt::Formatter<'_>) -> bool { true } }
+impl core::fmt::Display for PublicKey { #[verifier::external_body] fn fmt(&self, _f: &mut core::fmt::Formatter<'_>) -> core::fmt::Result { unimplemented!() } }
+impl vstd::std_specs::fmt::DisplaySpecImpl for PublicKey { open spec fn fmt_req(&self, f: &core::fmt::Formatter<'_>) -> bool { true } }
+impl core::fmt::Display for EventId { #[verifier::external_body] fn fmt(&self, _f: &mut core::fmt::Formatter<'_>) -> core::fmt::Result { unimplemented!() } }
+impl vstd::std_specs::fmt::DisplaySpecImpl for EventId { open spec fn fmt_req(&self, f: &core::fmt::Formatter<'_>) -> bool { true } }
